@@ -1,5 +1,6 @@
 // harness/C15.cpp — drives WrappableGrid<int,2> / WrappableGrid<int,3> (format: ocaml/drv_C15.ml)
 #include <iostream>
+#include <memory>
 #include <string>
 #include <vector>
 #include "vh.hpp"
@@ -28,10 +29,17 @@ static void run(const std::vector<std::string> & t)
   size_t nx = vh::ru(t[2]), ny = vh::ru(t[3]), nz = DIM == 3 ? vh::ru(t[4]) : 1;
   n[0] = nx; n[1] = ny;
   if (DIM == 3) {n[2] = nz;}
-  G g(n);
-  g.setValue(0);
+  std::unique_ptr<G> gp(new G(n));
+  gp->setValue(0);
   std::string sep;
   for (size_t i = 5; i < t.size(); ++i) {
+    if (t.size() % 4 == 2 && i == 5 + (t.size() - 5) / 2) {
+      // a grid is a value: half-way through, the history continues on a copy; the original is scribbled over and destroyed
+      std::unique_ptr<G> cp(new G(*gp));
+      gp->setValue(-777);
+      gp = std::move(cp);
+    }
+    G & g = *gp;
     auto a = ints(t[i].substr(2));
     if (t[i][0] == 'T') {
       typename G::CellIndexesOffset o;
